@@ -1,5 +1,6 @@
 SPECIFICATION Spec
 CONSTANTS
+  Stride = 1
   MaxDepth = 4
 CONSTRAINT Export
 INVARIANT LawRelocate
